@@ -88,6 +88,8 @@ fixed = [
     'fixed: property=C05 c7a882d NumpyStream / NetcdfStream with the documented dict input and a time axis raised ValueError (0-d row mask) when no window was configured',
     'fixed: property=C19 1a816ce PandasStore.save(exclude=[...]) raised TypeError / filtered by the include list (exclude arm read `include`)',
     'fixed: property=C05 74329b5 PandasStream raised IndexError / marked wrong rows for a DataFrame whose index is not 0..n-1 (iloc with labels)',
+    'fixed: property=C06 d952485 collect_results(how="list") raised ValueError (assignment destination is read-only) when an all-covering context was followed by '
+    'another context for the same stream and test: the all-covering branch aliased the stream arrays, which are read-only views under pandas >= 3',
 ]
 
 (ROOT / 'known_findings.json').write_text(json.dumps(dict(
